@@ -275,8 +275,11 @@ type SynWorld struct {
 	Items []SynItem `json:"items"`
 }
 
+// synBaseYear lets a world be dated in the future (a clone whose clock ran ahead).
+var synBaseYear = 2026
+
 func synTS(i int) string {
-	base := time.Date(2026, 1, 2, 3, 4, 5, 0, time.UTC)
+	base := time.Date(synBaseYear, 1, 2, 3, 4, 5, 0, time.UTC)
 	return base.Add(time.Duration(i) * time.Second).Format(time.RFC3339Nano)
 }
 
